@@ -6,8 +6,8 @@ use crate::{BankSudo, Module};
 use cosmwasm_std::{
     coin, ensure, ensure_eq, to_json_binary, Addr, AllDelegationsResponse, AllValidatorsResponse,
     Api, BankMsg, Binary, BlockInfo, BondedDenomResponse, Coin, CustomMsg, CustomQuery, Decimal,
-    Delegation, DelegationResponse, DistributionMsg, Empty, Event, FullDelegation, Querier,
-    StakingMsg, StakingQuery, Storage, Timestamp, Uint128, Validator, ValidatorResponse,
+    Decimal256, Delegation, DelegationResponse, DistributionMsg, Empty, Event, FullDelegation,
+    Querier, StakingMsg, StakingQuery, Storage, Timestamp, Uint128, Validator, ValidatorResponse,
 };
 use cw_storage_plus::{Deque, Item, Map};
 use schemars::JsonSchema;
@@ -55,7 +55,11 @@ impl Shares {
         if validator_info.stake.is_zero() {
             return Decimal::zero();
         }
-        rewards * self.stake / validator_info.stake
+        // the product is formed in 256 bits: `rewards * stake` leaves the range of `Decimal` for ordinary amounts
+        // (a million tokens of a coin with six decimals, staked for two days) although the share itself is small
+        let share = Decimal256::from(rewards) * Decimal256::from(self.stake)
+            / Decimal256::from_ratio(validator_info.stake, 1u128);
+        Decimal::try_from(share).expect("the share is in the range of the rewards")
     }
 }
 
